@@ -309,6 +309,21 @@ def r5(rr, repo):
         rr.ob('between two heartbeats the thread sleeps on the stop flag (it wakes at once when stopped)', len(waits) == 1, lm, loops[0], key='hb-wait')
         other = [c for c in q.calls_in(hb) if U(c.func) == 'self._emit_event' and c not in inl]
         rr.ob('outside the loop the heartbeat thread emits no RUNNING event', not [c for c in other if 'RUNNING' in U(c)], lm, hb, key='hb-no-running-outside')
+    # RUNNING comes from the heartbeat loop and from nowhere else: it is the only emission the stop flag governs (C18.R4), any other site can fire after the terminal event
+    lcls = repo.find(f'{LIN}::OpenFilterLineage')[1]
+    elsewhere = []
+    for mod2 in repo.modules.values():
+        for c in q.calls_in(mod2.tree):
+            if isinstance(c.func, ast.Attribute) and c.func.attr == '_emit_event' and 'RUNNING' in U(c):
+                f_ = enclosing_function(c)
+                in_own_loop = f_ is not None and f_.name == '_heartbeat_loop' and any(isinstance(a, ast.While) and 'is_set()' in U(a.test) for a in __import__('ofverif.model', fromlist=['ancestors']).ancestors(c))
+                if not in_own_loop:      # (openfilter/lineage/openlineage_client.py is an unused older copy of the emitter with the same loop)
+                    elsewhere.append((mod2, c))
+    for mod2, c in elsewhere:
+        rr.violated('a RUNNING event is emitted outside the heartbeat loop: nothing ties it to the stop flag, so it can follow the terminal event (e.g. a metrics export or facet update after the run ended)', mod2, c, witness=U(c)[:100],
+                    key=f'running-elsewhere|{qualname(c)}')
+    if not elsewhere:
+        rr.holds('RUNNING events are emitted by the heartbeat loop only', lm, lcls, key='running-only-heartbeat')
     # _emit_event: the type and run id reach the client
     _, emit = repo.find(f'{LIN}::OpenFilterLineage._emit_event')
     p0 = q.func_params(emit)[1]
